@@ -18,23 +18,23 @@ import (
 type Value interface{}
 
 type Region struct {
-	id      int
-	name    string
-	typ     types.Type // object type (expanded) or element type (dynamic)
-	dyn     bool
-	dynLen  *Term
-	fresh   bool // allocated during the activation under verification
-	global  bool
-	ronly   bool // read-only ghost region (string literals etc.)
-	opaque  bool // object of a dependency type: only its ghost state is modelled
-	ghostBytes *SliceVal // parsed OID values remember their content octets
+	id         int
+	name       string
+	typ        types.Type // object type (expanded) or element type (dynamic)
+	dyn        bool
+	dynLen     *Term
+	fresh      bool // allocated during the activation under verification
+	global     bool
+	ronly      bool       // read-only ghost region (string literals etc.)
+	opaque     bool       // object of a dependency type: only its ghost state is modelled
+	ghostBytes *SliceVal  // parsed OID values remember their content octets
 	family     types.Type // slice of pointers: pointee type of the element family (elements are lazily symbolic objects)
 	aliasPtr   *PtrVal    // alias variant: element aliasIdx of the family is this object
 	aliasIdx   *Term
 	familyOf   *Region
 	tblKind    string // generator table region: huge | odd
-	lazy    bool // cells are created on demand as deterministic symbolic variables
-	created int  // state epoch of creation
+	lazy       bool   // cells are created on demand as deterministic symbolic variables
+	created    int    // state epoch of creation
 }
 
 type PtrVal struct {
@@ -46,13 +46,13 @@ type PtrVal struct {
 }
 
 type SliceVal struct {
-	reg       *Region // nil => nil slice
-	path      []int   // path to the backing array inside an expanded region
-	off       *Term
-	length    *Term
-	capacity  *Term
-	elem      types.Type
-	backingN  int64 // length of backing array (expanded); -1 for dynamic
+	reg      *Region // nil => nil slice
+	path     []int   // path to the backing array inside an expanded region
+	off      *Term
+	length   *Term
+	capacity *Term
+	elem     types.Type
+	backingN int64 // length of backing array (expanded); -1 for dynamic
 }
 
 type AggVal struct {
@@ -68,13 +68,13 @@ type StrVal struct {
 }
 
 type IfaceVal struct {
-	null  *Term // Bool: is nil interface
-	dyn   types.Type
-	val   Value
-	tag   string // identity tag for error sentinels
-	tagT  *Term  // symbolic identity (Int) when unknown
+	null   *Term // Bool: is nil interface
+	dyn    types.Type
+	val    Value
+	tag    string       // identity tag for error sentinels
+	tagT   *Term        // symbolic identity (Int) when unknown
 	notDyn []types.Type // dynamic types excluded for a symbolic interface value
-	obj   string // ghost object identity of a symbolic interface value (streams, hash objects)
+	obj    string       // ghost object identity of a symbolic interface value (streams, hash objects)
 }
 
 type FuncVal struct {
